@@ -101,6 +101,12 @@ def obj_lists(draw, tier="quick"):
     return {"frame": frame, "ego": draw(GEN.ego_poses()) if frame == "map" else [0.0, 0.0, 0.0], "objs": objs, "is_gt": draw(st.booleans()), "crit": c}
 
 
+def _tr_snapshot(tr):
+    import numpy as np
+
+    return sorted((str(k), np.array(v.matrix).tolist()) for k, v in tr.items())
+
+
 def _kwargs(c):
     kw = {}
     if c.get("targets") is not None:
@@ -144,6 +150,7 @@ def objects3d(ctx, d):
     c, is_gt = d["crit"], d["is_gt"]
     objs = D.objs3d(d["objs"], d["frame"], d["ego"])
     tr = D.transforms(d["ego"])
+    tr_snap = _tr_snapshot(tr)
     snaps = [D.snapshot3d(o) for o in objs]
     ids = [id(o) for o in objs]
     out = None
@@ -179,6 +186,7 @@ def objects3d(ctx, d):
         ctx.cls("fp_labelled")
     # input untouched
     ctx.require([id(o) for o in objs] == ids and [D.snapshot3d(o) for o in objs] == snaps, "input-mutated", "filter_objects changed its input list or objects")
+    ctx.require(_tr_snapshot(tr) == tr_snap, "transforms-mutated", "filter_objects changed the TransformDict it was given")
     # idempotent
     with ctx.under_test("filter_objects(idempotence)"):
         again = filter_objects(list(out), is_gt, transforms=tr, **_kwargs(c))
@@ -190,6 +198,18 @@ def objects3d(ctx, d):
             wide = filter_objects(objs, is_gt, transforms=tr, **_kwargs(w))
             lost = [i for i in got if not any(objs[i] is x for x in wide)]
             ctx.require(not lost, "widening-removes", lambda: f"widening {c} -> {w} removed objects {lost}")
+    # the ego pose registered in the same TransformDict is updated (as frame interpolation does) and the objects, now
+    # expressed for the new pose, are filtered again: same ego-frame coordinates => same kept set
+    if d["frame"] == "map" and not skip:
+        ego2 = [d["ego"][0] + 37.5, d["ego"][1] - 12.25, d["ego"][2] + 0.9]
+        from perception_eval.common.schema import FrameID
+
+        with ctx.under_test("filter_objects(after ego pose update)"):
+            tr[(FrameID.BASE_LINK, FrameID.MAP)] = D.hmatrix(ego2)
+            objs2 = D.objs3d(d["objs"], "map", ego2)
+            out2 = filter_objects(objs2, is_gt, transforms=tr, **_kwargs(c))
+            got2 = [next((i for i, o in enumerate(objs2) if o is x), None) for x in out2]
+            ctx.require(got2 == ref, "stale-transform-after-pose-update", lambda: f"after replacing base_link->map in the same TransformDict the filter kept {got2}, expected {ref}")
 
 
 # ---- object results ---------------------------------------------------------------------------
@@ -234,11 +254,13 @@ def results3d(ctx, d):
     tr = D.transforms(d["ego"])
     results = [DynamicObjectWithPerceptionResult(e, gts[p] if p is not None else None, transforms=tr) for e, p in zip(ests, d["pairs"])]
     snaps = [D.snapshot3d(o) for o in ests + gts]
+    tr_snap = _tr_snapshot(tr)
     out = None
     with ctx.under_test("filter_object_results"):
         out = filter_object_results(list(results), transforms=tr, **_kwargs(c))
     if out is None:
         return
+    ctx.require(_tr_snapshot(tr) == tr_snap, "transforms-mutated", "filter_object_results changed the TransformDict it was given")
     ref, skip = [], False
     for i, (e, p) in enumerate(zip(d["objs"], d["pairs"])):
         k, m = RF.keep_result(_view(e), _view(d["gts"][p]) if p is not None else None, c)
